@@ -157,6 +157,9 @@ def obs_shared():
     return [int(rc), int(bool(pt)), entry_kind(), int(inst is not None)]
 
 
+SETUP_ERRORS = []
+
+
 def reset_process_state(user, created0):
     """initial condition of a case: table content, singleton fresh / absent"""
     copyreg.dispatch_table.pop(ModuleType, None)
@@ -173,9 +176,22 @@ def reset_process_state(user, created0):
     elif "__instance__" in MC.__dict__:
         del MC.__instance__
     if created0:
-        inst = orig_fn("__new__")(MC)
-        if "__init__" in MC.__dict__:       # the code before the fix initialises here
-            MC.__dict__["__init__"](inst)
+        try:
+            inst = orig_fn("__new__")(MC)
+            if "__init__" in MC.__dict__:       # the code before the fix initialises here
+                MC.__dict__["__init__"](inst)
+        except BaseException as e:  # noqa: reported by the cases that follow
+            SETUP_ERRORS.append(f"creating the singleton raised {type(e).__name__}: {e}")
+        # whatever the constructor did, the initial condition of a case is a quiescent singleton
+        inst = instance()
+        if inst is not None:
+            try:
+                inst.refcount, inst.patched_table = 0, False
+            except Exception:
+                pass
+        copyreg.dispatch_table.pop(ModuleType, None)
+        if user:
+            copyreg.dispatch_table[ModuleType] = user_reducer
 
 
 # ------------------------------------------------------------------ event log (per thread)
@@ -445,12 +461,24 @@ def make_classes():
         def __post_copy__(self):
             hook()
 
-    Leaf()
-    Node()       # bootstrap now, outside every observed history
     return Leaf, Node
 
 
 CLS = {}
+RAW_DEFAULTS = {"Leaf": dict(m=sys, ms=[], n=0),
+                "Node": dict(kids=[], table={}, tag="a", mods=[sys], extra=None)}
+
+
+def raw(name, **attrs):
+    """an instance built WITHOUT running the library's constructor (which copies): the
+    harness' own set-up must never execute the code under test outside an observed case"""
+    cls = CLS[name]
+    o = cls.__new__(cls)
+    d = {k: (list(v) if isinstance(v, list) else dict(v) if isinstance(v, dict) else v)
+         for k, v in RAW_DEFAULTS[name].items()}
+    d.update(attrs)
+    object.__getattribute__(o, "__dict__").update(d)
+    return o
 
 
 class Probe:
@@ -534,26 +562,27 @@ def run_history(hist, user, created0, inject=None, boom=None):
     boom = (op index, k): __post_copy__ raises at its k-th call within that op.
     Returns dict(events, planned, lines per op)."""
     ops = op_pool(None)
-    base = CLS["Node"](kids=[CLS["Leaf"](ms=[sys])])      # used if the constructing operation is aborted
+    base = raw("Node", kids=[raw("Leaf", ms=[sys])])      # used if the constructing operation is aborted
     reset_process_state(user, created0)
     LOG.clear()
-    ctx, planned, nlines, fired_at = {"n": base}, [], [], None
+    ctx, planned, nlines, fired_at, errors = {"n": base}, [], [], None, []
     for j, name in enumerate(hist):
         BOOM[0], BOOM_FIRED[0], TRANSFORM_FIRED[0] = None, False, False
         if boom and boom[0] == j:
             BOOM[0] = boom[1]
         INJ.arm(inject[1] if inject and inject[0] == j else None)
-        raised = False
+        raised, err = False, None
         sys.settrace(INJ.glob)
         try:
             ops[name](ctx)
-        except BaseException as e:  # noqa
+        except BaseException as e:  # noqa: whatever the library lets escape is the operation's outcome
             if isinstance(e, (KeyboardInterrupt, SystemExit)):
                 sys.settrace(None)
                 raise
-            raised = True
+            raised, err = True, f"{type(e).__name__}: {e}"[:200]
         finally:
             sys.settrace(None)
+        errors.append(err)
         BOOM[0] = None
         nlines.append(INJ.count)
         if INJ.fired is not None:
@@ -561,7 +590,7 @@ def run_history(hist, user, created0, inject=None, boom=None):
         planned.append(bool(INJ.fired is not None or BOOM_FIRED[0] or TRANSFORM_FIRED[0]))
         LOG.close_all()
         LOG.add("op_end", raised)
-    return {"events": LOG.events()[:], "planned": planned, "nlines": nlines, "fired": fired_at}
+    return {"events": LOG.events()[:], "planned": planned, "nlines": nlines, "fired": fired_at, "errors": errors}
 
 
 def seq_case_term(user, created0, events, planned):
@@ -626,7 +655,8 @@ def gen_injection_cases(rng, tier):
 
 # ------------------------------------------------------------------ concurrent runs
 def conc_values(name):
-    Leaf, Node = CLS["Leaf"], CLS["Node"]
+    Leaf = lambda **k: raw("Leaf", **k)     # noqa: E731
+    Node = lambda **k: raw("Node", **k)     # noqa: E731
     if name == "flat":
         return lambda: ("protect", [Probe(sys), os])
     if name == "flat2":
@@ -692,6 +722,19 @@ def thread_code(w, sched):
 
 def run_schedule(names, user, created0, choose):
     """choose(step index, current, runnable, live) -> thread to wake.  Returns a record."""
+    try:
+        return _run_schedule(names, user, created0, choose)
+    except BaseException as e:  # noqa: a run the harness could not complete is an incomplete run (oracle fails)
+        if isinstance(e, (KeyboardInterrupt, SystemExit)):
+            raise
+        sys.settrace(None)
+        n = len(names)
+        return dict(names=names, user=user, created0=created0, sched=[], seen=[], completed=False,
+                    note=f"run aborted: {type(e).__name__}: {e}"[:300], outs=[[1, 0]] * n, planned=[False] * n,
+                    progs=[[] for _ in range(n)], errors=[repr(e)])
+
+
+def _run_schedule(names, user, created0, choose):
     makers = [conc_values(n) for n in names]
     inputs = [mk() for mk in makers]       # building the inputs copies too: do it before the initial condition is set
     results = [None] * len(names)
@@ -765,7 +808,8 @@ def run_schedule(names, user, created0, choose):
         progs.append(items)
     return dict(names=names, user=user, created0=created0, sched=sched, seen=seen, completed=completed,
                 note=note, outs=outs, planned=planned, progs=progs,
-                errors=[repr(w.exc) for w in S.workers if w.exc is not None])
+                errors=[repr(w.exc) for w in S.workers if w.exc is not None and not isinstance(w.exc, Boom)]
+                + [repr(w.exc) for w in S.workers if isinstance(w.exc, Boom)])
 
 
 def conc_case_term(r):
@@ -840,7 +884,8 @@ def eval_conc(runs, tag="c"):
 def run_seq_case(c):
     res = run_history(c["hist"], c["user"], c["created0"], inject=c.get("inject"), boom=c.get("boom"))
     term, prog, trace = seq_case_term(c["user"], c["created0"], res["events"], res["planned"])
-    c = dict(c, term=term, prog=prog, trace=trace, planned=res["planned"], fired=res["fired"], nlines=res["nlines"])
+    c = dict(c, term=term, prog=prog, trace=trace, planned=res["planned"], fired=res["fired"], nlines=res["nlines"],
+             errors=res["errors"])
     pc = None
     if res["fired"] is not None and res["fired"][3] == MUT_FILE and res["fired"][0] in PC_TEXT:
         pc = pc_of(res["fired"][:3])
@@ -879,6 +924,8 @@ def describe_seq(c):
     return {"kind": "seq", "hist": c["hist"], "user": c["user"], "created0": c["created0"],
             "inject": c.get("inject"), "boom": c.get("boom"), "fired": c.get("fired"),
             "abort_pc": c.get("abort_pc"), "planned": c.get("planned"),
+            "outcome_per_operation": c.get("errors"),
+            "unplanned_exceptions": [e for e, p in zip(c.get("errors") or [], c.get("planned") or []) if e and not p],
             "program": [c_item(i) for i in c.get("prog", [])], "observed": c.get("trace"), "code": c.get("code"),
             "meaning": {1: "model and implementation differ; the observations satisfy the property",
                         2: "the implementation's observations violate the property (table not restored at a quiescent point / entry missing inside a copy / a copy raised)"}.get(c.get("code")),
@@ -959,7 +1006,19 @@ def main(tier, replay=None):
     # ---------------- sequential
     t0 = time.time()
     specs = load_corpus() + gen_seq_cases(rng, tier) + gen_injection_cases(rng, tier)
-    seq = [run_seq_case(c) for c in specs]
+    seq = []
+    for c in specs:
+        try:
+            seq.append(run_seq_case(c))
+        except BaseException as e:  # noqa: nothing the implementation does may stop the check
+            if isinstance(e, (KeyboardInterrupt, SystemExit)):
+                raise
+            sys.settrace(None)
+            chk.violation(f"exception outside every observed operation while running history={c['hist']}: "
+                          f"{type(e).__name__}: {e}"[:300],
+                          {"kind": "seq", "hist": c["hist"], "user": c["user"], "created0": c["created0"],
+                           "inject": c.get("inject"), "boom": c.get("boom"), "error": repr(e)},
+                          sig={"kind": "seq-crash"}, no_input=False)
     timings["seq_run_s"] = round(time.time() - t0, 1)
     t0 = time.time()
     bad, logs = eval_seq(seq)
@@ -986,8 +1045,10 @@ def main(tier, replay=None):
             continue
         reported.add(key)
         small = shrink_seq(c)
+        unplanned = [e for e, pl in zip(small.get("errors") or [], small.get("planned") or []) if e and not pl]
         what = (f"{'property violated' if code == 2 else 'model and implementation differ'}: history={small['hist']} "
-                f"user_entry={small['user']} inject={small.get('inject')} boom={small.get('boom')}")
+                f"user_entry={small['user']} inject={small.get('inject')} boom={small.get('boom')}"
+                + (f" exception escaped from the library: {unplanned[0]}" if unplanned else ""))
         chk.violation(what, describe_seq(small), sig={"kind": "seq", "abort_pc": small.get("abort_pc")},
                       no_input=(code != 2))
     # all unsafe-abort cases with code 2 (beyond the first 60) belong to the known finding too; does the model predict them?
@@ -1049,6 +1110,11 @@ def main(tier, replay=None):
                 f"threads={r['names']} user_entry={r['user']} singleton_exists={r['created0']} steps={len(r['sched'])} "
                 f"completed={r['completed']} {r['note'] or ''} outcomes={r['outs']} {r['errors'][:1]}")
         chk.violation(what, describe_conc(r, code), sig={"kind": "conc"}, no_input=(code != 2))
+
+    reset_process_state(False, False)
+    if SETUP_ERRORS:
+        chk.violation("the singleton's constructor raised while the harness set up a case: " + SETUP_ERRORS[0],
+                      {"kind": "setup", "errors": SETUP_ERRORS[:5]}, no_input=True)
 
     # ---------------- evidence
     op_hist, kinds, depth_hist, abort_hist = {}, {}, {}, {}
